@@ -573,14 +573,15 @@ Example C15_server_new_conn_frame_ex :
   wants_of st 1 = Some [c1; c2] /\ sstep 64 st (SNewConn 1) = (st, []).
 Proof. vm_compute. split; reflexivity. Qed.
 
-(* Observation about the code (not a modelling artefact): in a full wantlist `take(1024)` counts
-   entries before duplicates collapse, so repeated entries use up the cap: 1024 copies of c0
-   followed by c1 leave the want set {c0}; c1 is not recorded and a block for it is dropped. *)
-Example full_cap_counts_duplicates_ex :
+(* The cap of a full wantlist counts DISTINCT CIDs (server.rs:80-94, after the fix that followed the
+   earlier observation on `take(1024)`): 1024 copies of c0 followed by c1 keep both c0 and c1, and a
+   block that arrives for c1 is sent. *)
+Example full_cap_counts_distinct_ex :
   let w := MkWantlist (map (fun _ => ex_want (ex_cid 0)) (ex_range 0 1024) ++ [ex_want (ex_cid 1)]) true in
-  let ops := [SNewConn 1; SMsg 1 w [ex_cid 0]; SNewBlocks [(ex_cid 1, [1])]; SPoll] in
-  wants_of (snd (srun 64 (firstn 2 ops))) 1 = Some [ex_cid 0] /\
-  nth 3 (fst (srun 64 ops)) [] = [OGet 0 (ex_cid 0)] /\
+  let ops := [SNewConn 1; SMsg 1 w [ex_cid 1; ex_cid 0]; SNewBlocks [(ex_cid 1, [1])]; SPoll] in
+  wants_of (snd (srun 64 (firstn 2 ops))) 1 = Some [ex_cid 0; ex_cid 1] /\
+  nth 3 (fst (srun 64 ops)) [] = [OGet 0 (ex_cid 1); OSend 1 [([1; 85; 18; 3], [1])]] /\
+  wants_of (snd (srun 64 ops)) 1 = Some [ex_cid 0] /\
   s_bad_order (snd (srun 64 ops)) = false.
 Proof. vm_compute. repeat split; reflexivity. Qed.
 
@@ -654,3 +655,127 @@ Proof.
     + replace (ops1 ++ (a ++ [op]) ++ b1) with (((ops1 ++ a) ++ [op]) ++ b1) by (rewrite <- !app_assoc; reflexivity).
       exact Hs.
 Qed.
+
+(* ================================================================ observable forms *)
+(* The theorems above speak about the labelled outputs (LSend carries the CIDs).  The following
+   corollaries carry them over to what `sstep` / `srun` actually emit (OGet / OSend). *)
+Lemma sstep_erase Sz st op :
+  sstep Sz st op = (fst (sstep_l Sz st op), map erase (snd (sstep_l Sz st op))).
+Proof. unfold sstep. destruct (sstep_l Sz st op); reflexivity. Qed.
+
+Lemma In_OSend_erase out p blocks :
+  In (OSend p blocks) (map erase out) <-> exists bl, In (LSend p bl) out /\ blocks = map erase_block bl.
+Proof.
+  rewrite in_map_iff. split.
+  - intros (o & Ho & Hin). destruct o as [k c|q bl]; [discriminate|]. cbn in Ho. injection Ho as -> <-. eauto.
+  - intros (bl & Hin & ->). exists (LSend p bl). auto.
+Qed.
+
+Lemma In_OGet_erase out k c : In (OGet k c) (map erase out) <-> In (LGet k c) out.
+Proof.
+  rewrite in_map_iff. split.
+  - intros (o & Ho & Hin). destruct o as [k' c'|q bl]; [|discriminate]. cbn in Ho. injection Ho as -> ->. assumption.
+  - intros Hin. exists (LGet k c). auto.
+Qed.
+
+(* the outputs `srun` lists for the op at position |X| are the outputs of that step *)
+Lemma srun_nth Sz X op b :
+  nth (length X) (fst (srun Sz (X ++ op :: b))) [] = snd (sstep Sz (snd (srun Sz X)) op).
+Proof.
+  rewrite srun_erase, srun_snd, sstep_erase. cbn [fst snd]. unfold srun_l at 1. rewrite srun_l_from_app. cbn [fst].
+  fold (srun_l Sz X). rewrite map_app.
+  assert (Hlen : length (map (fun h => map erase (snd h)) (fst (srun_l Sz X))) = length X).
+  { rewrite map_length. rewrite <- (map_length fst). unfold srun_l. rewrite srun_l_ops. reflexivity. }
+  rewrite app_nth2 by lia. rewrite Hlen, Nat.sub_diag. cbn [srun_l_from].
+  destruct (sstep_l Sz (snd (srun_l Sz X)) op) as [st' out].
+  destruct (srun_l_from Sz st' b) as [h st'']. reflexivity.
+Qed.
+
+(* C07, observable: every OSend of a step is the erasure of one labelled batch with pairwise distinct
+   CIDs; it is the only OSend to that peer in the step; each of its blocks carries
+   prefix_to_bytes (prefix_of_cid c) for a CID c that was in the reference view of the peer before
+   the step and is not in it afterwards, and data that came from a store hit for c or from a
+   new_blocks_available entry for c. *)
+Theorem C07_observable : forall Sz ops op p blocks,
+  let st := snd (srun Sz ops) in
+  let hist := fst (srun_l Sz ops) in
+  In (OSend p blocks) (snd (sstep Sz st op)) ->
+  exists bl, blocks = map erase_block bl /\ NoDup (map fst bl) /\
+    (forall blocks', In (OSend p blocks') (snd (sstep Sz st op)) -> blocks' = blocks) /\
+    forall c d, In (c, d) bl ->
+      (exists s, sview Sz p hist = Some s /\ In c s) /\
+      (exists s', sview Sz p (hist ++ [(op, snd (sstep_l Sz st op))]) = Some s' /\ ~ In c s') /\
+      ((exists k, released_with hist k c (SHit d)) \/
+       (exists bl0 o, In (SNewBlocks bl0, o) hist /\ In (c, d) bl0)).
+Proof.
+  intros Sz ops op p blocks st hist Hin. subst st hist. rewrite srun_snd in *. rewrite sstep_erase in *.
+  cbn [snd] in *. apply In_OSend_erase in Hin. destruct Hin as (bl & Hin & ->).
+  exists bl. split; [reflexivity|].
+  assert (Hne : bl <> []).
+  { destruct (sstep_l_outputs _ _ _ _ Hin) as [Hp ->].
+    assert (Hstep : sstep_l Sz (snd (srun_l Sz ops)) SPoll = do_poll (snd (srun_l Sz ops)))
+      by (unfold sstep_l; rewrite Hp; reflexivity).
+    rewrite Hstep in Hin. destruct (poll_sends _ p bl (Inv_reach Sz ops) Hin) as (? & ? & ? & ? & ? & _ & _ & _ & _ & H & _).
+    exact H. }
+  destruct bl as [|[c0 d0] bl']; [congruence|].
+  destruct (C07_only_owed Sz ops op p _ c0 d0 Hin (or_introl eq_refl)) as (_ & _ & Hnd & Huniq).
+  split; [assumption|]. split.
+  - intros blocks' H'. apply In_OSend_erase in H'. destruct H' as (bl'' & Hin'' & ->).
+    rewrite (Huniq _ Hin''). reflexivity.
+  - intros c d Hcd. destruct (C07_only_owed Sz ops op p _ c d Hin Hcd) as (H1 & H2 & _ & _).
+    split; [assumption|]. split; [assumption|]. apply (C07_bytes_exact Sz ops op p _ c d Hin Hcd).
+Qed.
+
+(* C06, observable contrapositive: if p wants c, a block for c becomes available afterwards and the
+   server reaches a quiescent state, then p disconnected, or sent a further wantlist message, or
+   `srun` lists an OSend to p with a block (prefix of c, d). *)
+Theorem C06_available_implies_sent_obs : forall Sz ops1 ops2 p c,
+  let final := snd (srun Sz (ops1 ++ ops2)) in
+  s_panic final = false -> quiescent final ->
+  wanted Sz ops1 p c ->
+  ((exists a bl b, ops2 = a ++ SNewBlocks bl :: b /\ In c (map fst bl)) \/
+   (exists a k d b, ops2 = a ++ SRelease k (SHit d) :: b /\ started (fst (srun_l Sz (ops1 ++ a))) k c) \/
+   pending_hit c (snd (srun_l Sz ops1))) ->
+  exists a op b, ops2 = a ++ op :: b /\ wanted Sz (ops1 ++ a) p c /\
+    (op = SDisconnected p \/ (exists w o, op = SMsg p w o) \/
+     (exists blocks d, In (OSend p blocks) (nth (length (ops1 ++ a)) (fst (srun Sz (ops1 ++ ops2))) []) /\
+                       In (prefix_to_bytes (prefix_of_cid c), d) blocks)).
+Proof.
+  intros Sz ops1 ops2 p c final Hp Hq Hw Hsrc.
+  destruct (C06_available_implies_sent Sz ops1 ops2 p c Hp Hq Hw Hsrc) as (a & op & b & E & Hwa & Hcase).
+  exists a, op, b. split; [assumption|]. split; [assumption|].
+  destruct Hcase as [H|[H|(bl & Hin & Hc)]]; [auto|auto|]. right. right.
+  apply in_map_iff in Hc. destruct Hc as ([c' d] & Hc' & Hcd). cbn in Hc'. subst c'.
+  exists (map erase_block bl), d. split.
+  - rewrite E. replace (ops1 ++ a ++ op :: b) with ((ops1 ++ a) ++ op :: b) by (rewrite <- app_assoc; reflexivity).
+    rewrite srun_nth, srun_snd, sstep_erase. cbn [snd]. apply In_OSend_erase. eauto.
+  - apply in_map_iff. exists (c, d). auto.
+Qed.
+
+(* C06_gets_were_misses with the get observed as an OGet in the output of `srun` *)
+Theorem C06_gets_were_misses_obs : forall Sz ops1 ops2 p c,
+  let final := snd (srun Sz (ops1 ++ ops2)) in
+  s_panic final = false -> quiescent final ->
+  (forall a b, ops2 = a ++ b -> wanted Sz (ops1 ++ a) p c) ->
+  forall a op b k, ops2 = a ++ op :: b ->
+    In (OGet k c) (nth (length (ops1 ++ a)) (fst (srun Sz (ops1 ++ ops2))) []) ->
+    exists b1 r b2, b = b1 ++ SRelease k r :: b2 /\ (forall r', ~ In (SRelease k r') b1) /\
+                    (r = SMiss \/ r = SFail).
+Proof.
+  intros Sz ops1 ops2 p c final Hp Hq Hw a op b k E Hget.
+  apply (C06_gets_were_misses Sz ops1 ops2 p c Hp Hq Hw a op b k E).
+  rewrite E in Hget. replace (ops1 ++ a ++ op :: b) with ((ops1 ++ a) ++ op :: b) in Hget by (rewrite <- app_assoc; reflexivity).
+  rewrite srun_nth, srun_snd, sstep_erase in Hget. cbn [snd] in Hget. apply In_OGet_erase. exact Hget.
+Qed.
+
+(* the running example, observably: position 12 of the output of `srun` is the poll that serves both peers *)
+Example C07_observable_ex :
+  In (OSend 1 [([1; 85; 18; 3], [20]); ([1; 85; 18; 3], [10])])
+     (snd (sstep 64 (snd (srun 64 ex_ops_before_poll)) SPoll)).
+Proof. vm_compute. auto. Qed.
+
+Example C06_available_obs_ex :
+  In (OSend 2 [(prefix_to_bytes (prefix_of_cid c3), [30])])
+     (nth (length (ex_ops_main ++ [SNewBlocks [(c3, [30])]]))
+          (fst (srun 64 (ex_ops_main ++ [SNewBlocks [(c3, [30])]; SPoll]))) []).
+Proof. vm_compute. auto. Qed.
